@@ -4,7 +4,7 @@ import nodecheck
 PROFILE = dict(outbound=0.0, peers=3)
 W = nodecheck.weights(request=9, app_answer=7, bad_app_answer=2, close=2, dpr=1.5, accept=4, cer=8)
 N_QUICK, N_THOROUGH, LENGTH = 60, 1500, 20
-THEMES = (("answers", 500, 0, None, 0), ("two_peers", 300, 0, None, 0), ("refused_twin", 250, 0, None, 0), ("twin_ids", 150, 0, None, 0), ("foreign_cea", None, 0, None, 0), ("reconnect_after_dpr", 80, 0, None, 0), ("ready", 1, 30, 2, 500))
+THEMES = (("answers", 500, 0, None, 0), ("two_peers", 300, 0, None, 0), ("refused_twin", 250, 0, None, 0), ("twin_ids", 150, 0, None, 0), ("foreign_cea", None, 0, None, 0), ("reconnect_after_dpr", 80, 0, None, 0), ("nohost_reconnect", None, 0, None, 0), ("ready", 1, 30, 2, 500))
 FILES = ["Props/C09.v"]
 
 
